@@ -6,5 +6,5 @@ Definition c02_check := check_case tbl.
 Definition c02_diag := diag_bytes tbl.
 Definition c02_pcheck := pcheck_case ptbl.
 Definition c02_pdiag := pdiag_bytes ptbl.
-Extraction "c02_model.ml" vcheck_case icheck_case vdiag_bytes Build_vcase scheck_case sdiag_bytes Build_scase c02_check c02_diag c02_pcheck c02_pdiag Build_pcase binops unops EAtom EBin EUn EParen ECast TyName TyField TyFunType TyFunVariadic TyFunPack TyFunGeneric TyUnion TyInter TyOptional TyTypeOf TyTable TyArray TyParen TyString TyBool TyNil Build_tcase Build_item MStr MBreak MRaw MNlRaw MMerge MSpace
+Extraction "c02_model.ml" ncheck_case ndiag_bytes Build_ncase vcheck_case icheck_case vdiag_bytes Build_vcase scheck_case sdiag_bytes Build_scase c02_check c02_diag c02_pcheck c02_pdiag Build_pcase binops unops EAtom EBin EUn EParen ECast TyName TyField TyFunType TyFunVariadic TyFunPack TyFunGeneric TyUnion TyInter TyOptional TyTypeOf TyTable TyArray TyParen TyString TyBool TyNil Build_tcase Build_item MStr MBreak MRaw MNlRaw MMerge MSpace
   BConcat BVarargs BMinus BEqual BLongString N.of_nat.
